@@ -3,6 +3,7 @@ package checks
 import (
 	"fmt"
 	"go/types"
+	"regexp"
 	"strings"
 
 	"github.com/goplus/gogen/verif/internal/drive"
@@ -21,12 +22,22 @@ type c13Decl struct {
 	decl string // declaration
 }
 
-func c13Program(r *h.Rand, depthMax int) (string, []c13Decl) {
+var c13Imports = [][2]string{{"fmt", `"fmt"`}, {"io", `"io"`}, {"strings", `"strings"`}, {"time", `"time"`}, {"unsafe", `"unsafe"`}, {"autil", `autil "fx/a/util"`}, {"butil", `butil "fx/b/util"`}}
+
+// c13Program generates one package of type declarations. In the minimal mode (odd cases) the package declares few
+// types and imports exactly the packages their text mentions, with no other reference to them: the type expression
+// is then the ONLY thing keeping its packages imported, so a qualification that is printed but whose import is lost
+// (or mis-named) is observable. In the full mode every import is also referenced by a `var _` declaration.
+func c13Program(r *h.Rand, depthMax int, minimal bool) (string, []c13Decl) {
 	g := &gen.TypeGen{R: r}
 	var sb strings.Builder
-	sb.WriteString("package main\n" + gen.TypeImports + gen.TypePrelude + gen.TypeUses + "\n")
+	n := c13PerProg
+	if minimal {
+		n = 1 + r.Intn(4)
+	}
 	var decls []c13Decl
-	for i := 0; i < c13PerProg; i++ {
+	defer func() {}()
+	for i := 0; i < n; i++ {
 		d := 1 + r.Intn(depthMax)
 		t := g.Type(d)
 		var dc c13Decl
@@ -51,14 +62,27 @@ func c13Program(r *h.Rand, depthMax int) (string, []c13Decl) {
 		decls = append(decls, dc)
 		sb.WriteString(dc.decl + "\n")
 	}
-	return sb.String(), decls
+	body := sb.String()
+	if !minimal {
+		return "package main\n" + gen.TypeImports + gen.TypePrelude + gen.TypeUses + "\n" + body, decls
+	}
+	imps := ""
+	for _, im := range c13Imports {
+		if regexp.MustCompile(`\b` + im[0] + `\.`).MatchString(body) {
+			imps += "\t" + im[1] + "\n"
+		}
+	}
+	if imps != "" {
+		imps = "import (\n" + imps + ")\n"
+	}
+	return "package main\n" + imps + gen.TypePrelude + "\n" + body, decls
 }
 
 func c13N(tier string) int {
 	if tier == "thorough" {
-		return 8000
+		return 12000
 	}
-	return 400
+	return 640
 }
 
 func objType(p *types.Package, name string) types.Type {
@@ -81,7 +105,8 @@ func c13Run(tier string, seed uint64, i int) []h.Result {
 	if i%4 == 0 {
 		depthMax = 5
 	}
-	src, decls := c13Program(r, depthMax)
+	minimal := i%2 == 1
+	src, decls := c13Program(r, depthMax, minimal)
 	u := sharedUniverse()
 	o := drive.Build(u, []string{src}, drive.Opt{NoCompare: true})
 	key := fmt.Sprintf("type program seed=%d case=%d", seed, i)
@@ -103,6 +128,9 @@ func c13Run(tier string, seed uint64, i int) []h.Result {
 	for _, d := range decls {
 		res := h.Result{Key: "type: " + d.decl, Verdict: h.Held, NonTrivial: true}
 		res.Count("types_round_tripped", 1)
+		if minimal {
+			res.Count("types_sole_reference_to_their_imports", 1)
+		}
 		res.Tag(fmt.Sprintf("depth:%d", strings.Count(d.text, "[")+strings.Count(d.text, "{")+strings.Count(d.text, "(")+strings.Count(d.text, "*")))
 		want, got := objType(o.Src.Pkg, d.name), objType(o.Out.Pkg, d.name)
 		switch {
@@ -129,7 +157,7 @@ func init() {
 			"channels in all 9 direction nestings, functions with named/unnamed/blank/variadic parameters and named results, structs with embedded/pointer-embedded fields and tags containing quotes/backquotes/newlines/unicode, interfaces with methods and embedded interfaces, " +
 			"instantiations, constraint interfaces with unions and ~ terms) are declared through the builder in 6 positions (var, alias, func parameter+result, struct field + slice, type parameter constraint, defined type), printed, re-parsed and re-checked with the same importer objects; " +
 			"the re-read type of every declared object must be identical (cross-universe identity: element types, lengths, directions, field names/embedding/tags, method sets, variadic-ness, type arguments, alias targets, union terms, package of every named component). " +
-			"24 declarations per package. non-trivial = one declaration compared; distinct by declaration text",
+			"24 declarations per package with every import also referenced elsewhere (even cases); 1-4 declarations per package that imports exactly the packages the type texts mention and references them nowhere else (odd cases: the printed qualification must keep its import alive). non-trivial = one declaration compared; distinct by declaration text",
 		Assume: []string{"go/types identity on the re-checked output", "the front end builds types.Type values from syntax; programs it cannot drive are skipped"},
 		MinNT:  500,
 		Plan:   func(tier string, seed uint64) int { return c13N(tier) },
